@@ -227,10 +227,6 @@ func (p *PerClusterReporter) stats() *loadData {
 		inProgress := countData.loadInProgress()
 		errored := countData.loadAndClearErrored()
 		issued := countData.loadAndClearIssued()
-		if succeeded == 0 && inProgress == 0 && errored == 0 && issued == 0 {
-			return true
-		}
-
 		ld := localityData{
 			requestStats: requestData{
 				succeeded:  succeeded,
@@ -251,6 +247,13 @@ func (p *PerClusterReporter) stats() *loadData {
 			}
 			return true
 		})
+		// Server loads are recorded after CallFinished, so they can arrive
+		// when the request counters of the locality have just been reported
+		// and cleared. They must not be withheld until the locality sees
+		// another call (or lost, if it never does).
+		if succeeded == 0 && inProgress == 0 && errored == 0 && issued == 0 && len(ld.loadStats) == 0 {
+			return true
+		}
 		sd.localityStats[key.(clients.Locality)] = ld
 		return true
 	})
